@@ -72,6 +72,11 @@ def setup_tree(root: Path):
     (root / "f6").write_text("#include 'x6'\n#include 'y6'\nm6  1;\n")
     (root / "x6").write_text("#include 'y6'\nx6  2;\n")
     (root / "y6").write_text("y6  3; // comment in y6\n")
+    # a dangling include name (no such file next to f9) that exists under another working directory
+    (root / "f9").write_text("#include 'ghost9'\n#include 'sub/ghost9'\nm9  1;\n")
+    (root / "other" / "ghost9").write_text("p9  42; // belongs to another case\n")
+    (root / "other" / "sub").mkdir()
+    (root / "other" / "sub" / "ghost9").write_text("q9  43;\n")
     # two XML documents that bind ONE namespace URI to different prefixes (default namespace / prefix cfg)
     (root / "f7.xml").write_text('<?xml version="1.0"?>\n<Config xmlns="http://example.org/ns"><name>plain</name><n>1</n></Config>\n')
     (root / "f8.xml").write_text('<?xml version="1.0"?>\n<cfg:Config xmlns:cfg="http://example.org/ns"><cfg:name>pre</cfg:name><cfg:n>2</cfg:n></cfg:Config>\n')
@@ -122,6 +127,11 @@ def do_op(root: Path, op: str, spelling: str, out_tag: str):
         n = op[-1]
         dictIO.DictParser.parse(P(f"f{n}.xml"), output="xml")
         return ("bytes", (root / f"parsed.f{n}.xml").read_bytes())
+    if op == "read9":
+        return ("data", canon(dictIO.DictReader.read(P("f9"))))
+    if op == "parse9":
+        dictIO.DictParser.parse(P("f9"))
+        return ("bytes", (root / "parsed.f9").read_bytes())
     if op == "read5":
         return ("data", canon(dictIO.DictReader.read(P("f5"))))
     if op == "read4":
@@ -174,7 +184,7 @@ def do_op(root: Path, op: str, spelling: str, out_tag: str):
 
 
 PREFIX_OPS = ["read1", "read2", "read3", "write", "parse", "dumpload", "reset", "read1o", "parsex7", "parsex8"]
-OBSERVED = ["rwr", "parsex7", "parsex8", "read1", "read1o", "read1n", "read2", "read3", "read4", "read5", "read6", "parse6", "write", "writeo", "parse", "parseo", "parsej", "parse4", "dumpload", "writeback", "loaddump"]
+OBSERVED = ["read9", "parse9", "rwr", "parsex7", "parsex8", "read1", "read1o", "read1n", "read2", "read3", "read4", "read5", "read6", "parse6", "write", "writeo", "parse", "parseo", "parsej", "parse4", "dumpload", "writeback", "loaddump"]
 CWDS = [".", "sub", "sub/deep", "other"]
 # every offset of the wrap inside one read of f1 (about 14 placeholders): each placeholder gets id 0 under one of them
 COUNTERS = [-1, 5] + list(range(999984, 1000000))
